@@ -4609,6 +4609,10 @@ class PyCdlib:
 
         old_rec = dr.DirectoryRecord()  # type: Union[dr.DirectoryRecord, udfmod.UDFFileEntry]
         fmode = 0
+        if self.rock_ridge:
+            # If the old record carries no Rock Ridge information (Joliet, UDF,
+            # El Torito), assume a conservative 444 like add_fp does.
+            fmode = 0o0100444
         if iso_old_path is not None:
             # A link from a file on the ISO9660 filesystem...
             old_rec = self._find_iso_record(iso_old_path)
